@@ -285,9 +285,13 @@ impl<'a, T> AtomicArena<'a, T> {
         // needs to be allocated.  Double-checked locking is fine because the
         // buckets are `AtomicPtr` with the unlocked read and locked write
         // as an `Acquire / Release` pair.
+        #[cfg(isographlabs_isograph_verif)]
+        crate::verif_exports::probe(crate::verif_exports::PROBE_ARENA_SLOW_PATH);
         let lock = self.bucket_alloc_mutex.lock();
         // Relaxed load because we know we're competing with prior lock holders now.
         if let Some(curr) = NonNull::new(self.buckets[a as usize].load(Ordering::Relaxed)) {
+            #[cfg(isographlabs_isograph_verif)]
+            crate::verif_exports::probe(crate::verif_exports::PROBE_ARENA_SLOW_PATH_LOST_RACE);
             return curr;
         }
         let cap = bucket_capacity(a) as usize;
